@@ -27,6 +27,8 @@ def s_plan(tier):
           (with_init(PG.timeout_resize(2, 1)), 1, PT),
           (with_init(PG.shutdown_form(2, "exit", 1, 0.05)), 1, PT),
           (with_init(PG.shutdown_form(2, "del", 1, 0.05)), 1, PT),
+          (PG.memory_leak_respawn(1, "ok", "await"), 1, PT),
+          (PG.memory_leak_respawn(1, "ok", "nowait"), 1, PT),
           (with_init(PG.basic(2, None), "fail"), 1, PT),
           (with_init(PG.reusable_replace(None, False)), 0, PT)]
     if tier == "thorough":
